@@ -1,7 +1,7 @@
 #!/usr/bin/env python3
 """setup helper: pre-compiles the harness binaries against /repo/include (content-hash cached):
-the ASan+UBSan protocol harness every check uses, and the libstdc++ debug-mode build shared by the
-C07 / C15 / C17 checks."""
+the ASan+UBSan protocol harness every check uses, the libstdc++ debug-mode build shared by the
+C07 / C08 / C15 / C17 checks, and the -O2 -DNDEBUG build of the release pass."""
 import concurrent.futures as cf
 import os, sys
 sys.path.insert(0, os.path.dirname(os.path.dirname(os.path.abspath(__file__))))
@@ -26,6 +26,15 @@ def debug_harness():
         return f"debug-mode harness not prebuilt: {e}"
 
 
-with cf.ThreadPoolExecutor(max_workers=2) as ex:
-    for r in ex.map(lambda f: f(), [main_harness, debug_harness]):
+def release_harness():
+    try:
+        return core.build_harness(name="bgh17-g++-O2-ndebug", flags=["-std=c++17", "-O2"], compiler="g++", defines=["-DNDEBUG"])
+    except core.BuildError as e:
+        return "release harness build failed (checks will report it):\n" + e.output[-2000:]
+    except Exception as e:   # never fail the setup
+        return f"release harness not prebuilt: {e}"
+
+
+with cf.ThreadPoolExecutor(max_workers=3) as ex:
+    for r in ex.map(lambda f: f(), [main_harness, debug_harness, release_harness]):
         print(r)
